@@ -21,8 +21,8 @@ import (
 const mod = "github.com/anacrolix/dht/v2"
 
 var rewrites = map[string]string{
-	"sync":                         mod + "/internal/verifshim/sync",
-	"github.com/anacrolix/sync":    mod + "/internal/verifshim/sync",
+	"sync":                          mod + "/internal/verifshim/sync",
+	"github.com/anacrolix/sync":     mod + "/internal/verifshim/sync",
 	"github.com/anacrolix/chansync": mod + "/internal/verifshim/chansync",
 }
 
@@ -48,6 +48,76 @@ func astutilAddImport(f *ast.File, path string) {
 	f.Imports = append(f.Imports, spec)
 }
 
+// insertRacePoints inserts verifsched.Point("race") before the innermost statement (in a block, case
+// or comm clause body) that covers each of the given lines. Returns the number of points inserted.
+func insertRacePoints(fset *token.FileSet, f *ast.File, lines []int) int {
+	type slot struct {
+		list *[]ast.Stmt
+		idx  int
+		span int
+	}
+	best := map[int]*slot{}
+	consider := func(list *[]ast.Stmt) {
+		for i, st := range *list {
+			from, to := fset.Position(st.Pos()).Line, fset.Position(st.End()).Line
+			for _, ln := range lines {
+				if ln < from || ln > to {
+					continue
+				}
+				if b := best[ln]; b == nil || to-from < b.span || (to-from == b.span && b.list != list) {
+					best[ln] = &slot{list, i, to - from}
+				}
+			}
+		}
+	}
+	ast.Inspect(f, func(n ast.Node) bool {
+		switch x := n.(type) {
+		case *ast.BlockStmt:
+			consider(&x.List)
+		case *ast.CaseClause:
+			consider(&x.Body)
+		case *ast.CommClause:
+			consider(&x.Body)
+		}
+		return true
+	})
+	// group by list, insert from the highest index down; one point per statement
+	type key struct {
+		list *[]ast.Stmt
+		idx  int
+	}
+	seen := map[key]bool{}
+	byList := map[*[]ast.Stmt][]int{}
+	for _, b := range best {
+		k := key{b.list, b.idx}
+		if !seen[k] {
+			seen[k] = true
+			byList[b.list] = append(byList[b.list], b.idx)
+		}
+	}
+	n := 0
+	for list, idxs := range byList {
+		for i := 0; i < len(idxs); i++ {
+			for j := i + 1; j < len(idxs); j++ {
+				if idxs[j] > idxs[i] {
+					idxs[i], idxs[j] = idxs[j], idxs[i]
+				}
+			}
+		}
+		for _, i := range idxs {
+			pt := &ast.ExprStmt{X: &ast.CallExpr{
+				Fun:  &ast.SelectorExpr{X: ast.NewIdent("verifsched"), Sel: ast.NewIdent("Point")},
+				Args: []ast.Expr{&ast.BasicLit{Kind: token.STRING, Value: strconv.Quote("race")}},
+			}}
+			l := *list
+			l = append(l[:i], append([]ast.Stmt{pt}, l[i:]...)...)
+			*list = l
+			n++
+		}
+	}
+	return n
+}
+
 func main() {
 	repo := flag.String("repo", "/repo", "repository root")
 	out := flag.String("out", "", "output directory")
@@ -55,7 +125,35 @@ func main() {
 	src := flag.String("src", "_overlay", "directory with verifsched/ and verifshim/ sources")
 	goPoints := flag.Bool("gopoints", false, "insert a scheduling point at the start of every go func(){...} body")
 	pkgs := flag.String("pkgs", "traversal,bep44,.", "comma-separated package directories (relative to repo) to rewrite")
+	racePts := flag.String("racepoints", "", "comma-separated <file relative to repo>:<line>: insert a scheduling point before the statement covering that line (accesses a race detector run reported as unsynchronised)")
 	flag.Parse()
+	// file (absolute) -> lines
+	raceLines := map[string][]int{}
+	pkgList := strings.Split(*pkgs, ",")
+	for _, rp := range strings.Split(*racePts, ",") {
+		rp = strings.TrimSpace(rp)
+		if rp == "" {
+			continue
+		}
+		i := strings.LastIndex(rp, ":")
+		ln, err := strconv.Atoi(rp[i+1:])
+		if i < 0 || err != nil {
+			fmt.Fprintln(os.Stderr, "rewrite: bad -racepoints entry", rp)
+			os.Exit(1)
+		}
+		abs := filepath.Join(*repo, rp[:i])
+		raceLines[abs] = append(raceLines[abs], ln)
+		dir := filepath.Dir(rp[:i])
+		have := false
+		for _, p := range pkgList {
+			if filepath.Clean(strings.TrimSpace(p)) == filepath.Clean(dir) {
+				have = true
+			}
+		}
+		if !have {
+			pkgList = append(pkgList, dir)
+		}
+	}
 	replace := map[string]string{}
 	must := func(err error) {
 		if err != nil {
@@ -79,8 +177,8 @@ func main() {
 			}
 		}
 	}
-	nrew := 0
-	for _, p := range strings.Split(*pkgs, ",") {
+	nrew, nrace := 0, 0
+	for _, p := range pkgList {
 		p = strings.TrimSpace(p)
 		if p == "" {
 			continue
@@ -122,6 +220,13 @@ func main() {
 					changed = true
 				}
 			}
+			if lines := raceLines[path]; len(lines) > 0 {
+				if n := insertRacePoints(fset, f, lines); n > 0 {
+					astutilAddImport(f, mod+"/verifsched")
+					changed = true
+					nrace += n
+				}
+			}
 			for _, im := range f.Imports {
 				v, _ := strconv.Unquote(im.Path.Value)
 				if to, ok := rewrites[v]; ok {
@@ -151,5 +256,5 @@ func main() {
 	}
 	b, _ := json.MarshalIndent(map[string]any{"Replace": replace}, "", " ")
 	must(os.WriteFile(*ov, b, 0o644))
-	fmt.Printf("overlay: %d files rewritten, %d entries\n", nrew, len(replace))
+	fmt.Printf("overlay: %d files rewritten, %d entries, %d race-directed points\n", nrew, len(replace), nrace)
 }
